@@ -351,12 +351,39 @@ def _reads(node, X: str):
     return [n for n in ast.walk(node) if isinstance(n, ast.Name) and n.id == X and isinstance(n.ctx, ast.Load) and id(n) not in skip]
 
 
-def _scan(stmts, X: str, init: bool, argsort_names: set):
+_SHAPE: dict = {}
+
+
+def _join(a, b):
+    if a is True:
+        return b
+    if b is True:
+        return a
+    if not a or not b:
+        return False
+    c = frozenset(a) & frozenset(b)
+    return c or False
+
+
+def _empty_guard(test) -> bool:
+    """`len(A) == 0` (or `< 1`, `not len(A)`) where the buffer's leading dimension is that very len(A): the buffer has no element there."""
+    lead = _SHAPE.get("lead")
+    if lead is None:
+        return False
+    if isinstance(test, ast.UnaryOp) and isinstance(test.op, ast.Not):
+        return ast.unparse(test.operand) == lead
+    if isinstance(test, ast.Compare) and len(test.ops) == 1 and ast.unparse(test.left) == lead and isinstance(test.comparators[0], ast.Constant):
+        c = test.comparators[0].value
+        return (isinstance(test.ops[0], ast.Eq) and c == 0) or (isinstance(test.ops[0], ast.Lt) and c == 1) or (isinstance(test.ops[0], ast.LtE) and c == 0)
+    return False
+
+
+def _scan(stmts, X: str, init, argsort_names: set):
     """(state after the statements, first offending read or None, tracking stopped?)."""
     for s_ in stmts:
         if isinstance(s_, ast.Assign) and any(isinstance(t_, ast.Name) and t_.id == X for t_ in s_.targets):
             rd = _reads(s_.value, X)
-            if rd and not init:
+            if rd and init is not True:
                 return init, rd[0], True
             return True, None, True                       # re-bound: no longer the np.empty storage
         if isinstance(s_, ast.Assign) and any(isinstance(t_, ast.Subscript) and _store_root(t_) == X for t_ in s_.targets):
@@ -365,17 +392,22 @@ def _scan(stmts, X: str, init: bool, argsort_names: set):
             whole = (isinstance(sl, ast.Slice) and sl.lower is None and sl.upper is None) or (isinstance(sl, ast.Constant) and sl.value is Ellipsis) \
                 or (isinstance(sl, ast.Name) and sl.id in argsort_names and isinstance(t_.value, ast.Name))
             rd = _reads(s_.value, X)
-            if rd and not init:
+            if rd and init is not True:
                 return init, rd[0], False
             if whole:
                 init = True
+            elif init is not True and isinstance(sl, ast.Tuple) and len(sl.elts) == 2 and isinstance(sl.elts[0], ast.Slice) and sl.elts[0].lower is None \
+                    and sl.elts[0].upper is None and sl.elts[0].step is None and isinstance(sl.elts[1], ast.Constant) and isinstance(sl.elts[1].value, int) \
+                    and isinstance(t_.value, ast.Name) and "ncols" in _SHAPE and 0 <= sl.elts[1].value < _SHAPE["ncols"]:
+                cols = (frozenset(init) if init else frozenset()) | {sl.elts[1].value}
+                init = True if len(cols) == _SHAPE["ncols"] else cols
             continue
         if isinstance(s_, ast.Expr) and isinstance(s_.value, ast.Call) and isinstance(s_.value.func, ast.Attribute) and s_.value.func.attr == "fill" \
                 and isinstance(s_.value.func.value, ast.Name) and s_.value.func.value.id == X:
             init = True
             continue
         if isinstance(s_, (ast.For, ast.While)):
-            if not init:
+            if init is not True:
                 rd = [n for b_ in s_.body for n in _reads(b_, X)]
                 if rd:
                     return init, rd[0], False
@@ -387,18 +419,19 @@ def _scan(stmts, X: str, init: bool, argsort_names: set):
             continue
         if isinstance(s_, ast.If):
             rd = _reads(s_.test, X)
-            if rd and not init:
+            if rd and init is not True:
                 return init, rd[0], False
-            i1, b1, st1 = _scan(s_.body, X, init, argsort_names)
+            i1, b1, st1 = _scan(s_.body, X, True if _empty_guard(s_.test) else init, argsort_names)
             if b1 is not None:
                 return init, b1, False
             i2, b2, st2 = _scan(s_.orelse, X, init, argsort_names)
             if b2 is not None:
                 return init, b2, False
-            init = i1 and i2
+            leaves = bool(s_.body) and isinstance(s_.body[-1], (ast.Return, ast.Raise, ast.Continue, ast.Break))
+            init = i2 if (leaves or _empty_guard(s_.test)) else _join(i1, i2)
             continue
         rd = _reads(s_, X)
-        if rd and not init:
+        if rd and init is not True:
             return init, rd[0], False
     return init, None, False
 
@@ -408,6 +441,26 @@ def _first_uninit_read(mod, fi, creation, X: str):
                      and ((isinstance(n.value.func, ast.Attribute) and n.value.func.attr == "argsort")) for t_ in n.targets if isinstance(t_, ast.Name)}
     cur = creation
     init = False
+    # a two-dimensional buffer np.empty((n, k)) with a literal k can be filled one whole column at a time (X[:, c] = ...)
+    _SHAPE.clear()
+    shp = creation.value.args[0] if creation.value.args else None
+    if isinstance(shp, ast.Tuple) and len(shp.elts) == 2:
+        _SHAPE["lead"] = ast.unparse(shp.elts[0])
+        if isinstance(shp.elts[1], ast.Constant) and isinstance(shp.elts[1].value, int) and 1 <= shp.elts[1].value <= 8:
+            _SHAPE["ncols"] = shp.elts[1].value
+    elif isinstance(shp, ast.Attribute) and shp.attr == "shape" and isinstance(shp.value, ast.Name):
+        # same shape as an argument: as many rows; the columns are those the function addresses column-wise anywhere (the element-wise
+        # form `X[i][c] = ..` in a loop over the rows is read with the same leniency)
+        _SHAPE["lead"] = f"len({shp.value.id})"
+        cols = set()
+        for n_ in ast.walk(fi.node):
+            if isinstance(n_, ast.Subscript) and isinstance(n_.ctx, ast.Store) and isinstance(n_.value, ast.Name) and n_.value.id == X and isinstance(n_.slice, ast.Tuple) \
+                    and len(n_.slice.elts) == 2 and isinstance(n_.slice.elts[1], ast.Constant) and isinstance(n_.slice.elts[1].value, int):
+                cols.add(n_.slice.elts[1].value)
+        if cols and cols == set(range(len(cols))):
+            _SHAPE["ncols"] = len(cols)
+    elif shp is not None:
+        _SHAPE["lead"] = ast.unparse(shp)
     while cur is not fi.node:
         parent = mod.parent(cur)
         if parent is None:
